@@ -364,7 +364,7 @@ def run_flatten(sh, case, driver='flatten'):
 def run(sh):
     from bycycle.utils import epoch_df
     rng = gen.rng_for(sh.seed, PROP, sh.shard)
-    K = 12 if sh.tier == 'quick' else 600
+    K = 12 if sh.tier == 'quick' else 220
     for it in range(K):
         try:
             df, sig, fs, center, fam = make_table(rng)
@@ -420,9 +420,20 @@ def run(sh):
             m = len(tabs) // 2
             tabs2 = [tabs[:m], tabs[m:2 * m]]
             labels = [['r0c%d' % j for j in range(m)], ['r1c%d' % j for j in range(m)]]
+            if rng.random() < 0.3:
+                labels = [['chan0'] * m, ['chan1'] * m]          # one label for every epoch of a channel
+                sh.note('flatten:repeated_labels')
             c3 = {'tables': tabs2, 'labels': labels, 'two_d': True, 'labels_as': str(rng.choice(['list', 'array', 'array_T', 'array_F']))}
         else:
-            labels = ['ep%d' % j for j in range(len(tabs))] if rng.random() < 0.6 else list(range(len(tabs)))
+            r_ = rng.random()
+            if r_ < 0.45:
+                labels = ['ep%d' % j for j in range(len(tabs))]
+            elif r_ < 0.7:
+                labels = list(range(len(tabs)))
+            else:
+                # condition names: the same label for several tables
+                labels = [['rest', 'task', 'cue'][j % int(rng.integers(2, 4))] for j in range(len(tabs))]
+                sh.note('flatten:repeated_labels')
             c3 = {'tables': tabs, 'labels': labels, 'two_d': False, 'labels_as': str(rng.choice(['list', 'array'])),
                   'column_name': 'Label' if rng.random() < 0.6 else 'Epoch'}
         run_flatten(sh, c3)
